@@ -79,6 +79,23 @@ CHECKS.update({
          "operands with more bits than iv.prec are checked for soundness and for exact membership.",
          "Trusted: order-type completeness argument; mp.mpf == interval (mp-context behaviour) is excluded.", "DESIGN.md §4 C16"),
 })
+CHECKS.update({
+ "C33": (MC, "TLC exhaustive cache-protocol models (MatrixLU, PrecCache) + replay of every model history on the real caches (projection and value vs empty caches) + TLC-judged probes after dirty histories vs a fresh process",
+         "LUFresh/CopyIndependent/NoStaleHit/AbortSafe model-checked; each printed history is replayed on real matrices, log_int_cache and zeta_int_cache "
+         "(slot/precision projection, hit/miss, injected aborts, values vs empty caches); seeded dirty histories of documentation blocks with injected faults are followed by "
+         "probe evaluations compared by TLC with a fresh subprocess (2 ulps).",
+         "Rounding-level tolerance is 2 ulps for routines not documented as correctly rounded. Constant memos are covered by C17's ConstMemo model and histories. "
+         "Caches not individually modelled (bernoulli, gamma/atan/log Taylor tables, quadrature nodes, hypergeometric summators, memoize) are reached through the probes only.",
+         "DESIGN.md §4 C33"),
+ "C34": (MC, "TLC exhaustive model of the odefun segment table (OdeSeg) + replay of every query history (all orders, aborts, precision changes) on real interpolants",
+         "OrderFree model-checked for interior points; every history replayed on three real ODE systems comparing segment counts with the spec and values bit-for-bit with a fresh interpolant; "
+         "the rational solution 1/(1+x) is judged exactly by TLC.",
+         "Segment boundaries of identical instances are deterministic. At exact boundary points the answering segment depends on history (exhibited by cfg/OdeSeg_boundary, values were bit-identical where tried). "
+         "Accuracy for exp/harmonic needs the series oracle (RealFun).", "DESIGN.md §4 C34"),
+ "C40": (MC, "TLC model of the hex pickling round trip (Pickle) and CopyIndependent (MatrixLU) + TLC-judged representation identity of pickled/copied values",
+         "Every pickle protocol, copy and deepcopy of mpf/mpc values (specials, long mantissas, huge exponents) and copies of mixed matrices: identical raw tuples, same type, equal; mutation independence both ways.",
+         "Matrix pickling is not supported by the class and is read as outside the statement (copying of matrices is covered).", "DESIGN.md §4 C40"),
+})
 
 ALL = ["C%02d" % i for i in range(1, 44)]
 NOT_APPLICABLE = {
